@@ -58,6 +58,24 @@ namespace c14 {
       }
    }
 
+   // Probing WHILE the sequence grows (a sequence may keep state between calls): right after member k was added, position k is read
+   // directly and must be that member; positions k+1 and k+6 are refused (which parks any remembered position at the end); then k-1
+   // and k are read again.  Pure observation: nothing here changes what the sequence holds.
+   template<class Seq, class Elem>
+   bool grows_well(const Seq& s, std::size_t k, const Elem& added)
+   {
+      bool ok = true;
+      auto is_added = [&] { try { return static_cast<const void*>(&s.get(k)) == static_cast<const void*>(&added); } catch (const std::logic_error&) { return false; } };
+      auto refused = [&](std::size_t i) { try { (void) s.get(i); return false; } catch (const std::logic_error&) { return true; } };
+      if (s.size() != k + 1) ok = false;
+      if (not is_added()) ok = false;
+      if (not refused(k + 1) or not refused(k + 6)) ok = false;
+      if (k > 0) { try { (void) s.get(k - 1); } catch (const std::logic_error&) { ok = false; } }
+      if (not is_added()) ok = false;
+      if (not refused(k + 1)) ok = false;
+      return ok;
+   }
+
    std::string seq_op(Ctx& c, const std::string& impl_name, const std::string& pattern, const std::string& view)
    {
       auto& L = c.lex;
@@ -105,8 +123,13 @@ namespace c14 {
       }
       if (impl_name == "objseq" or impl_name == "objlist") {
          auto run = [&](auto& s) {
-            for (std::size_t i = 0; i < pat.size(); ++i) lab.put(*s.push_back(c.some_var(), Binding_mode::Copy), "e" + std::to_string(i));
-            return view_line<ipr::Capture>(s, lab);
+            bool grow = true;
+            for (std::size_t i = 0; i < pat.size(); ++i) {
+               auto* e = s.push_back(c.some_var(), Binding_mode::Copy);
+               lab.put(*e, "e" + std::to_string(i));
+               if (not grows_well(static_cast<const ipr::Sequence<ipr::Capture>&>(s), i, static_cast<const ipr::Capture&>(*e))) grow = false;
+            }
+            return view_line<ipr::Capture>(s, lab) + "\n@grow=" + (grow ? "1" : "0");
          };
          if (impl_name == "objseq") { impl::obj_sequence<impl::Capture> s; return run(s); }
          impl::obj_list<impl::Capture> s;
@@ -138,24 +161,36 @@ namespace c14 {
       }
       if (impl_name == "typedlist" or impl_name == "homlist") {
          auto* m = L.make_mapping(*c.work, Mapping_level{1});
+         bool grow = true;
          for (std::size_t i = 0; i < pat.size(); ++i) {
             auto& t = c.T();
-            lab.put(*m->param(c.fresh_id(), t), "e" + std::to_string(i));
+            auto* prm = m->param(c.fresh_id(), t);
+            lab.put(*prm, "e" + std::to_string(i));
             lab.put(t, "t" + std::to_string(i));
+            const ipr::Parameter_list& cur = m->parameters();
+            if (not grows_well(cur.elements(), i, static_cast<const ipr::Parameter&>(*prm))) grow = false;
+            if (not grows_well(cur.type().elements(), i, t)) grow = false;
          }
          const ipr::Parameter_list& pl = m->parameters();
-         if (impl_name == "typedlist" or view == "type") return view_line<ipr::Type>(pl.type().elements(), lab);
-         if (view == "expr") return view_line<ipr::Expr>(pl.region().body(), lab);
-         return view_line<ipr::Decl>(pl.region().bindings().elements(), lab);
+         const std::string grown = std::string("\n@grow=") + (grow ? "1" : "0");
+         if (impl_name == "typedlist" or view == "type") return view_line<ipr::Type>(pl.type().elements(), lab) + grown;
+         if (view == "expr") return view_line<ipr::Expr>(pl.region().body(), lab) + grown;
+         return view_line<ipr::Decl>(pl.region().bindings().elements(), lab) + grown;
       }
       if (impl_name == "homseq") {
          auto* en = L.make_enum(*c.work, ipr::Enum::Kind::Legacy);
-         for (std::size_t i = 0; i < pat.size(); ++i) lab.put(*en->add_member(c.fresh_id()), "e" + std::to_string(i));
+         bool grow = true;
+         for (std::size_t i = 0; i < pat.size(); ++i) {
+            auto* e = en->add_member(c.fresh_id());
+            lab.put(*e, "e" + std::to_string(i));
+            if (not grows_well(static_cast<const ipr::Enum&>(*en).members(), i, static_cast<const ipr::Enumerator&>(*e))) grow = false;
+         }
+         const std::string grown = std::string("\n@grow=") + (grow ? "1" : "0");
          lab.put(static_cast<const ipr::Type&>(*en), "t0");               // every enumerator has the one enumeration as its type
          const ipr::Region& r = en->region();
-         if (view == "expr") return view_line<ipr::Expr>(r.body(), lab);
-         if (view == "type") return view_line<ipr::Type>(util::view<ipr::Product>(r.bindings().type())->elements(), lab);
-         return view_line<ipr::Decl>(r.bindings().elements(), lab);
+         if (view == "expr") return view_line<ipr::Expr>(r.body(), lab) + grown;
+         if (view == "type") return view_line<ipr::Type>(util::view<ipr::Product>(r.bindings().type())->elements(), lab) + grown;
+         return view_line<ipr::Decl>(r.bindings().elements(), lab) + grown;
       }
       if (impl_name == "homsingle") {
          auto* b = L.make_block(*c.work);
